@@ -46,6 +46,7 @@ type Agg struct {
 	Pool           map[string]int64
 	Counters       map[string]int64
 	BaselineRuns   int
+	Rounds         int64
 	BaselineCached int
 	DigestCompared int64
 	Samples        []interface{}
@@ -101,6 +102,7 @@ func (a *Agg) add(prop, label string, rr *RunResult) {
 		return
 	}
 	a.Evals += num(end["evals"])
+	a.Rounds += num(end["rounds"])
 	a.Steps += num(end["steps"])
 	a.Switches += num(end["switches"])
 	a.GCs += num(end["gcs"])
